@@ -334,10 +334,18 @@ def zone_of(dt, warned, dflt_tz=None):
 
 
 def canon_ok(r, fwt, warned, dflt_tz=None):
+    # the SHAPE of the value is part of the answer: a (datetime, tuple of str) pair exactly when fuzzy_with_tokens was asked for
     if fwt:
+        if not (isinstance(r, tuple) and len(r) == 2 and isinstance(r[0], datetime.datetime) and isinstance(r[1], tuple)
+                and all(isinstance(x, str) for x in r[1])):
+            return "shape fuzzy_with_tokens=True returned %s" % (
+                "a bare datetime" if isinstance(r, datetime.datetime) else type(r).__name__)
         dt, toks = r
         t = "[" + ",".join(cps(x) for x in toks) + "]"
     else:
+        if not isinstance(r, datetime.datetime):
+            return "shape fuzzy_with_tokens=False returned %s" % (
+                "a (datetime, tokens) pair" if isinstance(r, tuple) else type(r).__name__)
         dt, t = r, "-"
     return "ok %d %d %d %d %d %d %d | %s | %s" % (dt.year, dt.month, dt.day, dt.hour, dt.minute, dt.second,
                                                  dt.microsecond, zone_of(dt, warned, dflt_tz), t)
